@@ -3,9 +3,12 @@ C19 — interrupted writes and truncated files never yield points that were not 
 -/
 import LasModel.Model.Crash
 import LasModel.Lemmas.ReadBack
+import LasModel.Lemmas.HeaderRT
+import LasModel.Lemmas.Append
+import LasModel.Props.C07
 
 namespace LasModel.Props.C19
-open LasModel.Bytes LasModel.Header LasModel.FileIO LasModel.Crash LasModel.Appender
+open LasModel.Bytes LasModel.Strings LasModel.Header LasModel.FileIO LasModel.Crash LasModel.Appender LasModel.Props.C07
 
 /-- (ii) **torn counter**: a little-endian point counter being overwritten from `old` to
     `new ≥ old` and interrupted after any number of bytes decodes to at most `new` -/
@@ -135,5 +138,801 @@ theorem image_single (data : Bytes) (k : Nat) : image [] [(0, data)] k = data.ta
       unfold image writeAt
       simp
       rw [List.take_of_length_le (by omega)]
+
+/-! ### torn header rewrites: field extraction, mixing, the end-to-end statement -/
+
+def sumL : List Nat → Nat
+  | [] => 0
+  | w :: ws => w + sumL ws
+
+theorem decInts_rest (ws : List Nat) (bs : Bytes) : (decInts ws bs).2 = bs.drop (sumL ws) := by
+  induction ws generalizing bs with
+  | nil => simp [decInts, sumL]
+  | cons w ws ih =>
+    simp only [decInts, readLE, sumL]
+    rw [ih, List.drop_drop]
+
+/-- **field extraction**: the `i`-th integer read sequentially is the little-endian value of the
+    bytes at its layout position -/
+theorem decInts_getD (ws : List Nat) (bs : Bytes) (i : Nat) (hi : i < ws.length) :
+    (decInts ws bs).1.getD i 0 = leNat ((bs.drop (sumL (ws.take i))).take (ws.getD i 0)) := by
+  induction ws generalizing bs i with
+  | nil => simp at hi
+  | cons w ws ih =>
+    cases i with
+    | zero => simp [decInts, readLE, sumL]
+    | succ i =>
+      simp only [decInts, readLE, List.getD_cons_succ, List.take_succ_cons, sumL]
+      rw [ih _ i (by simpa using hi), List.drop_drop]
+
+theorem sysLen : Gen.SYSTEM_IDENTIFIER_LEN = 32 := by decide
+theorem softLen : Gen.GENERATING_SOFTWARE_LEN = 32 := by decide
+
+/-- the integers of the numeric block, as `read_from` sees them -/
+def cOf (buf : Bytes) : List Nat := (decInts (widthsC (leNat ((buf.drop 25).take 1))) (buf.drop 90)).1
+
+theorem parseHdr_fields (buf : Bytes) (h : Hdr) (hp : parseHdr buf = .ok h) :
+    h.vMinor = leNat ((buf.drop 25).take 1) ∧
+    h.recLen = (cOf buf).getD 6 0 ∧
+    h.count = (if h.vMinor ≥ 4 then (cOf buf).getD 28 0 else (cOf buf).getD 7 0) := by
+  unfold parseHdr at hp
+  simp only [readN, readString, decInts_rest, sumL, List.drop_drop, sysLen, softLen] at hp
+  have hm : (decInts [1, 1] (List.drop (4 + (2 + (2 + 0)) + 16) buf)).fst.getD 1 0 = leNat ((buf.drop 25).take 1) := by
+    rw [decInts_getD _ _ 1 (by decide)]
+    simp [sumL, List.drop_drop]
+  simp only [hm] at hp
+  have h90 : 4 + (2 + (2 + 0)) + 16 + (1 + (1 + 0)) + 32 + 32 = 90 := by decide
+  simp only [h90] at hp
+  change (if _ then _ else _) = _ at hp
+  generalize hc : (decInts (widthsC (leNat ((buf.drop 25).take 1))) (buf.drop 90)).1 = c at hp
+  have hcc : cOf buf = c := hc
+  rw [hcc]
+  split at hp
+  · cases hp
+  · split at hp
+    · cases hp
+    · injection hp with hp
+      subst hp
+      simp only
+      refine ⟨trivial, trivial, ?_⟩
+      by_cases h4 : leNat ((buf.drop 25).take 1) ≥ 4
+      · have h3 : leNat ((buf.drop 25).take 1) ≥ 3 := by omega
+        simp only [h4, h3, if_true]
+        simp [List.getD_eq_getElem?_getD, List.getElem?_drop]
+      · simp only [h4, if_false]
+
+
+/-- **mixing lemma**: a slice of a buffer whose first `j` bytes come from `A` and the rest from `B`
+    is the same mixture of the two slices -/
+theorem mix_slice (A B : Bytes) (hl : A.length = B.length) (j p w : Nat) (hj : j ≤ A.length) :
+    ((A.take j ++ B.drop j).drop p).take w =
+      ((A.drop p).take w).take (j - p) ++ ((B.drop p).take w).drop (j - p) := by
+  have la : (A.take j).length = j := by simp [List.length_take]; omega
+  rw [List.drop_append, List.take_append, la]
+  congr 1
+  · rw [List.drop_take, List.take_take, List.take_take, Nat.min_comm]
+  · have e1 : j + (p - j) = p + (j - p) := by omega
+    have e2 : w - (List.drop p (List.take j A)).length = w - (j - p) := by
+      simp only [List.length_take, List.length_drop]; omega
+    rw [e2, List.drop_drop, e1]
+    conv => rhs; rw [List.drop_take, List.drop_drop]
+
+/-- where the two buffers agree on the slice, so does the mixture -/
+theorem mix_slice_same (A B : Bytes) (hl : A.length = B.length) (j p w : Nat) (hj : j ≤ A.length)
+    (hs : (A.drop p).take w = (B.drop p).take w) :
+    ((A.take j ++ B.drop j).drop p).take w = (B.drop p).take w := by
+  rw [mix_slice A B hl j p w hj, hs, List.take_append_drop]
+
+
+/-- bytes `[p, p+w)` -/
+def slice (p w : Nat) (bs : Bytes) : Bytes := (bs.drop p).take w
+
+theorem slice_append_left (p w : Nat) (a b : Bytes) (h : p + w ≤ a.length) : slice p w (a ++ b) = slice p w a := by
+  unfold slice
+  rw [List.drop_append, List.take_append]
+  have : w - (a.drop p).length = 0 := by simp only [List.length_drop]; omega
+  rw [this]; simp
+
+theorem widthsC_length (m : Nat) : 25 ≤ (widthsC m).length := by
+  unfold widthsC; simp
+
+theorem cOf_recLen (buf : Bytes) : (cOf buf).getD 6 0 = leNat (slice 105 2 buf) := by
+  unfold cOf slice
+  rw [decInts_getD _ _ 6 (by have := widthsC_length (leNat ((buf.drop 25).take 1)); omega)]
+  simp [widthsC, sumL, List.drop_drop]
+
+theorem cOf_legacyCount (buf : Bytes) : (cOf buf).getD 7 0 = leNat (slice 107 4 buf) := by
+  unfold cOf slice
+  rw [decInts_getD _ _ 7 (by have := widthsC_length (leNat ((buf.drop 25).take 1)); omega)]
+  simp [widthsC, sumL, List.drop_drop]
+
+theorem cOf_count14 (buf : Bytes) (h4 : leNat ((buf.drop 25).take 1) ≥ 4) : (cOf buf).getD 28 0 = leNat (slice 247 8 buf) := by
+  unfold cOf slice
+  have h3 : leNat ((buf.drop 25).take 1) ≥ 3 := by omega
+  rw [decInts_getD _ _ 28 (by unfold widthsC; simp [h3, h4])]
+  simp [widthsC, sumL, List.drop_drop, h3, h4]
+
+
+theorem slice_mix_same (A B body : Bytes) (hl : A.length = B.length) (j p w : Nat) (hj : j ≤ A.length)
+    (hp : p + w ≤ A.length) (hs : slice p w A = slice p w B) :
+    slice p w (A.take j ++ B.drop j ++ body) = slice p w B := by
+  have hlen : (A.take j ++ B.drop j).length = A.length := by
+    simp only [List.length_append, List.length_take, List.length_drop]; omega
+  rw [slice_append_left p w _ body (by omega)]
+  exact mix_slice_same A B hl j p w hj hs
+
+theorem slice_mix (A B body : Bytes) (hl : A.length = B.length) (j p w : Nat) (hj : j ≤ A.length)
+    (hp : p + w ≤ A.length) :
+    slice p w (A.take j ++ B.drop j ++ body) = (slice p w A).take (j - p) ++ (slice p w B).drop (j - p) := by
+  have hlen : (A.take j ++ B.drop j).length = A.length := by
+    simp only [List.length_append, List.length_take, List.length_drop]; omega
+  rw [slice_append_left p w _ body (by omega)]
+  exact mix_slice A B hl j p w hj
+
+/-- **C19, the header rewrite** (the only moment a writer or appender session has a header that
+    advertises more than zero new points): the destination holds the first `j` bytes of the new
+    header over the old one — any `j`, so every field is old, new or torn. If old and new headers
+    agree on the version byte, the offset and the record length, and the point counter goes from
+    `m` to `n` with `m ≤ n ≤` the number of records stored, then reading the file fails or returns a
+    prefix of the stored records. -/
+theorem C19_header_rewrite (new old body : Bytes) (recs : List Rec) (tail : Bytes) (j off recLen m n : Nat)
+    (hlen : new.length = old.length) (hoff : new.length = off) (h227 : 227 ≤ off) (hj : j ≤ new.length)
+    (present : Nat) (hbody : body = (recs.flatten ++ tail).take present)
+    (hpos : 0 < recLen) (hrec : ∀ r ∈ recs, r.length = recLen)
+    (hminor : slice 25 1 new = slice 25 1 old)
+    (hoffs : slice 96 4 new = slice 96 4 old) (hoffv : leNat (slice 96 4 old) = off)
+    (hrl : slice 105 2 new = slice 105 2 old) (hrlv : leNat (slice 105 2 old) = recLen)
+    (hmn : m ≤ n) (hn : n ≤ recs.length)
+    (hcount : if leNat (slice 25 1 old) ≥ 4
+      then slice 247 8 new = leBytes 8 n ∧ slice 247 8 old = leBytes 8 m ∧ n < 256 ^ 8
+      else slice 107 4 new = leBytes 4 n ∧ slice 107 4 old = leBytes 4 m ∧ n < 256 ^ 4) :
+    (∃ e, readFile (new.take j ++ old.drop j ++ body) = .error e) ∨
+    (∃ r, readFile (new.take j ++ old.drop j ++ body) = .ok r ∧ IsPrefix r.records recs) := by
+  generalize himg : new.take j ++ old.drop j ++ body = img
+  have hM : (new.take j ++ old.drop j).length = off := by
+    simp only [List.length_append, List.length_take, List.length_drop]; omega
+  have s_minor : slice 25 1 img = slice 25 1 old := by
+    rw [← himg]; exact slice_mix_same new old body hlen j 25 1 hj (by omega) hminor
+  have s_off : slice 96 4 img = slice 96 4 old := by
+    rw [← himg]; exact slice_mix_same new old body hlen j 96 4 hj (by omega) hoffs
+  have s_rl : slice 105 2 img = slice 105 2 old := by
+    rw [← himg]; exact slice_mix_same new old body hlen j 105 2 hj (by omega) hrl
+  have hfo : fileOffset img = off := by
+    unfold fileOffset; rw [← hoffv, ← s_off]; rfl
+  unfold readFile
+  cases hd : decodeHdr img with
+  | error e => exact Or.inl ⟨_, rfl⟩
+  | ok h =>
+    simp only
+    -- the prefetched buffer is exactly the (mixed) header
+    unfold decodeHdr at hd
+    cases hpf : prefetch img with
+    | error e => rw [hpf] at hd; cases hd
+    | ok buf =>
+      rw [hpf] at hd
+      simp only at hd
+      have hbuf : buf = new.take j ++ old.drop j := by
+        unfold prefetch at hpf
+        simp only at hpf
+        split at hpf
+        · cases hpf
+        · split at hpf
+          · cases hpf
+          · split at hpf
+            · cases hpf
+            · injection hpf with hpf
+              have h1 : (List.drop 96 (List.take 227 img)).take 4 = slice 96 4 img := by
+                unfold slice
+                rw [List.drop_take, List.take_take]
+                simp
+              rw [h1, s_off, hoffv] at hpf
+              have : off ≥ 227 := by omega
+              simp only [this, if_true] at hpf
+              rw [← hpf, ← himg, List.take_append_of_le_length (by omega), ← hM, List.take_length]
+      obtain ⟨f1, f2, f3⟩ := parseHdr_fields buf h hd
+      have b_minor : slice 25 1 buf = slice 25 1 old := by
+        rw [hbuf, ← s_minor, ← himg, slice_append_left 25 1 _ body (by omega)]
+      have b_rl : slice 105 2 buf = slice 105 2 old := by
+        rw [hbuf, ← s_rl, ← himg, slice_append_left 105 2 _ body (by omega)]
+      have hminorv : h.vMinor = leNat (slice 25 1 old) := by rw [f1, ← b_minor]; rfl
+      have hrecLen : h.recLen = recLen := by rw [f2, cOf_recLen, b_rl, hrlv]
+      have hcnt : h.count ≤ n := by
+        rw [f3]
+        by_cases h4 : h.vMinor ≥ 4
+        · have h4' : leNat (slice 25 1 old) ≥ 4 := by omega
+          simp only [h4, if_true]
+          simp only [h4', if_true] at hcount
+          obtain ⟨c1, c2, c3⟩ := hcount
+          rw [cOf_count14 buf (by rw [← f1]; exact h4), hbuf]
+          have := mix_slice new old hlen j 247 8 hj
+          unfold slice at c1 c2 ⊢
+          rw [this, c1, c2]
+          exact torn_counter 8 m n (j - 247) hmn c3
+        · have h4' : ¬ leNat (slice 25 1 old) ≥ 4 := by omega
+          simp only [h4, if_false]
+          simp only [h4', if_false] at hcount
+          obtain ⟨c1, c2, c3⟩ := hcount
+          rw [cOf_legacyCount buf, hbuf]
+          have := mix_slice new old hlen j 107 4 hj
+          unfold slice at c1 c2 ⊢
+          rw [this, c1, c2]
+          exact torn_counter 4 m n (j - 107) hmn c3
+      unfold readBody
+      split
+      · exact Or.inl ⟨_, rfl⟩
+      · split
+        · exact Or.inl ⟨_, rfl⟩
+        · have harea : img.drop off = (recs.flatten ++ tail).take present := by
+            rw [← himg, ← hbody, ← hM, List.drop_left]
+          rcases C19_records_prefix h off img recs tail present (by rw [hrecLen]; exact hpos)
+              (by intro r hr; rw [hrecLen]; exact hrec r hr) harea (Nat.le_trans hcnt hn) with ⟨e, he⟩ | ⟨rs, hrs, hpre⟩
+          · left; rw [hfo, he]; exact ⟨_, rfl⟩
+          · right; rw [hfo, hrs]; exact ⟨_, rfl, hpre⟩
+
+
+theorem slice_append_right (p w : Nat) (a b : Bytes) (h : a.length ≤ p) : slice p w (a ++ b) = slice (p - a.length) w b := by
+  unfold slice
+  rw [List.drop_append, List.drop_of_length_le h]
+  simp
+
+theorem slice_head (w n : Nat) (rest : Bytes) : slice 0 w (leBytes w n ++ rest) = leBytes w n := by
+  unfold slice
+  simp only [List.drop_zero]
+  rw [List.take_append_of_le_length (by simp)]
+  exact List.take_of_length_le (by simp)
+
+theorem encInts_append (a b : List (Nat × Nat)) : encInts (a ++ b) = encInts a ++ encInts b := by
+  induction a with
+  | nil => rfl
+  | cons x xs ih => obtain ⟨w, n⟩ := x; simp [encInts, ih, List.append_assoc]
+
+theorem encInts_map_len (l : List Nat) (w : Nat) : (encInts (l.map fun d => (w, d))).length = w * l.length := by
+  induction l with
+  | nil => rfl
+  | cons x xs ih => simp only [List.map_cons, encInts, List.length_append, leBytes_length, ih, List.length_cons]; rw [Nat.mul_succ]; omega
+
+theorem legacy_len (h : Hdr) (hw : h.WF) : (encInts (legacyInts h)).length = 24 := by
+  unfold legacyInts
+  split
+  · simp [encInts, List.replicate]
+  · have : (h.byReturn.take 5).length = 5 := by simp [List.length_take, hw.ret.1]
+    simp only [encInts, List.length_append, leBytes_length, encInts_map_len, this]
+
+/-- the layout facts about a written header that the crash argument needs -/
+theorem encForm_slices (h : Hdr) (hw : h.WF) (vb : Bytes) :
+    slice 25 1 (encForm h vb) = leBytes 1 h.vMinor ∧
+    slice 96 4 (encForm h vb) = leBytes 4 (base h.vMinor + h.extraHeader.length + vb.length + h.extraVlr.length) ∧
+    slice 105 2 (encForm h vb) = leBytes 2 h.recLen ∧
+    slice 107 4 (encForm h vb) = leBytes 4 (if h.vMinor ≥ 4 then 0 else h.count) ∧
+    (h.vMinor ≥ 4 → slice 247 8 (encForm h vb) = leBytes 8 h.count) := by
+  have lsig : Gen.fileSignature.length = 4 := by decide
+  have lA : (encInts [(2, h.fileSourceId), (2, h.globalEncoding)]).length = 4 := by simp [encInts]
+  have lG := hw.guid
+  have lB : (encInts [(1, h.vMajor), (1, h.vMinor)]).length = 2 := by simp [encInts]
+  have lY := (readString_writeString h.systemId 32 [] hw.sys.1 hw.sys.2).1
+  have lW := (readString_writeString h.software 32 [] hw.soft.1 hw.soft.2).1
+  unfold encForm
+  refine ⟨?_, ?_, ?_, ?_, ?_⟩
+  · rw [slice_append_right _ _ _ _ (by omega), slice_append_right _ _ _ _ (by omega),
+      slice_append_right _ _ _ _ (by omega), lsig, lA, lG]
+    simp only [encInts, List.append_assoc]
+    rw [slice_append_right _ _ _ _ (by simp)]
+    simp only [leBytes_length]
+    exact slice_head 1 _ _
+  all_goals
+    rw [slice_append_right _ _ _ _ (by omega), slice_append_right _ _ _ _ (by omega),
+      slice_append_right _ _ _ _ (by omega), slice_append_right _ _ _ _ (by omega),
+      slice_append_right _ _ _ _ (by omega), slice_append_right _ _ _ _ (by omega), lsig, lA, lG, lB, lY, lW]
+    unfold blockC
+    simp only [List.cons_append, List.nil_append, encInts, List.append_assoc]
+  · -- offset: after doy, year, hsize
+    rw [slice_append_right _ _ _ _ (by simp), slice_append_right _ _ _ _ (by simp), slice_append_right _ _ _ _ (by simp)]
+    simp only [leBytes_length]
+    exact slice_head 4 _ _
+  · rw [slice_append_right _ _ _ _ (by simp), slice_append_right _ _ _ _ (by simp), slice_append_right _ _ _ _ (by simp),
+      slice_append_right _ _ _ _ (by simp), slice_append_right _ _ _ _ (by simp), slice_append_right _ _ _ _ (by simp)]
+    simp only [leBytes_length]
+    exact slice_head 2 _ _
+  · rw [slice_append_right _ _ _ _ (by simp), slice_append_right _ _ _ _ (by simp), slice_append_right _ _ _ _ (by simp),
+      slice_append_right _ _ _ _ (by simp), slice_append_right _ _ _ _ (by simp), slice_append_right _ _ _ _ (by simp),
+      slice_append_right _ _ _ _ (by simp)]
+    simp only [leBytes_length]
+    rw [encInts_append]
+    unfold legacyInts
+    split
+    · simp only [encInts, List.append_assoc]; exact slice_head 4 _ _
+    · simp only [encInts, List.append_assoc]; exact slice_head 4 _ _
+  · intro h4
+    have h3 : h.vMinor ≥ 3 := by omega
+    rw [slice_append_right _ _ _ _ (by simp), slice_append_right _ _ _ _ (by simp), slice_append_right _ _ _ _ (by simp),
+      slice_append_right _ _ _ _ (by simp), slice_append_right _ _ _ _ (by simp), slice_append_right _ _ _ _ (by simp),
+      slice_append_right _ _ _ _ (by simp)]
+    simp only [leBytes_length]
+    rw [encInts_append, encInts_append, List.append_assoc, List.append_assoc]
+    have lD : (encInts (h.doubles.map fun d => (8, d))).length = 96 := by rw [encInts_map_len, hw.doubles.1]
+    rw [slice_append_right _ _ _ _ (by rw [legacy_len h hw]; decide), legacy_len h hw,
+      slice_append_right _ _ _ _ (by rw [lD]; decide), lD]
+    unfold tailInts
+    simp only [h3, h4, if_true, List.cons_append, List.nil_append, encInts, List.append_assoc]
+    rw [slice_append_right _ _ _ _ (by simp), slice_append_right _ _ _ _ (by simp), slice_append_right _ _ _ _ (by simp)]
+    simp only [leBytes_length]
+    exact slice_head 8 _ _
+
+
+theorem base_ge (m : Nat) (hm : 1 ≤ m ∧ m ≤ 4) : 227 ≤ base m ∧ (m ≥ 4 → 255 ≤ base m) := by
+  obtain ⟨h1, h4⟩ := hm
+  have : m = 1 ∨ m = 2 ∨ m = 3 ∨ m = 4 := by omega
+  rcases this with rfl | rfl | rfl | rfl <;> decide
+
+/-- **C19 for header rewrites of real sessions**: `h` is the header the file carries (count `h.count`:
+    zero for a writer session, the original count for an append session), the session rewrites it in
+    place with new statistics (count `n`, per-return counts, extrema, EVLR pointer). Whatever prefix of
+    that rewrite reaches the destination, reading the file fails or returns a prefix of the records
+    stored after the header — never a point that was not written. -/
+theorem C19_rewrite_session (h : Hdr) (hw : h.WF) (vb : Bytes)
+    (n : Nat) (byReturn doubles : List Nat) (evlrStart nEvlrs : Nat)
+    (hw' : (C07.withStats h n byReturn doubles evlrStart nEvlrs).WF)
+    (hoff32 : base h.vMinor + h.extraHeader.length + vb.length + h.extraVlr.length < 2 ^ 32)
+    (recs : List Rec) (tail : Bytes) (j : Nat)
+    (hj : j ≤ (encForm (C07.withStats h n byReturn doubles evlrStart nEvlrs) vb).length)
+    (hpos : 0 < h.recLen) (hrec : ∀ r ∈ recs, r.length = h.recLen)
+    (hmn : h.count ≤ n) (hn : n ≤ recs.length) :
+    let img := (encForm (C07.withStats h n byReturn doubles evlrStart nEvlrs) vb).take j ++ (encForm h vb).drop j ++ (recs.flatten ++ tail)
+    (∃ e, readFile img = .error e) ∨ (∃ r, readFile img = .ok r ∧ IsPrefix r.records recs) := by
+  intro img
+  have e_minor : (C07.withStats h n byReturn doubles evlrStart nEvlrs).vMinor = h.vMinor := rfl
+  have e_eh : (C07.withStats h n byReturn doubles evlrStart nEvlrs).extraHeader = h.extraHeader := rfl
+  have e_ev : (C07.withStats h n byReturn doubles evlrStart nEvlrs).extraVlr = h.extraVlr := rfl
+  have e_rl : (C07.withStats h n byReturn doubles evlrStart nEvlrs).recLen = h.recLen := rfl
+  have e_ct : (C07.withStats h n byReturn doubles evlrStart nEvlrs).count = n := rfl
+  have l0 := encForm_length h hw vb
+  have l1 := encForm_length _ hw' vb
+  rw [e_minor, e_eh, e_ev] at l1
+  obtain ⟨a1, a2, a3, a4, a5⟩ := encForm_slices h hw vb
+  obtain ⟨b1, b2, b3, b4, b5⟩ := encForm_slices _ hw' vb
+  rw [e_minor] at b1 b4 b5
+  rw [e_minor, e_eh, e_ev] at b2
+  rw [e_rl] at b3
+  rw [e_ct] at b4 b5
+  have hb := base_ge h.vMinor hw.minor
+  have hmin : leNat (slice 25 1 (encForm h vb)) = h.vMinor := by
+    rw [a1, leNat_leBytes_of_lt]; have := hw.minor.2; omega
+  refine C19_header_rewrite _ _ _ recs tail j
+      (base h.vMinor + h.extraHeader.length + vb.length + h.extraVlr.length) h.recLen h.count n
+      (by rw [l0, l1]) l1 (by omega) hj (recs.flatten ++ tail).length List.take_length.symm hpos hrec (by rw [a1, b1]) (by rw [a2, b2])
+      (by rw [a2, leNat_leBytes_of_lt _ _ (by simpa using hoff32)]) (by rw [a3, b3])
+      (by rw [a3, leNat_leBytes_of_lt _ _ (by have := hw.recLen; simpa using this)]) hmn hn ?_
+  rw [hmin]
+  by_cases h4 : h.vMinor ≥ 4
+  · simp only [h4, if_true]
+    refine ⟨b5 h4, a5 h4, ?_⟩
+    have := hw'.count
+    rw [e_ct, e_minor] at this
+    simp only [maxPointCount] at this
+    have h3 : ¬ h.vMinor ≤ 3 := by omega
+    simp only [h3, if_false] at this
+    omega
+  · simp only [h4, if_false]
+    simp only [h4, if_false] at a4 b4
+    refine ⟨b4, a4, ?_⟩
+    have := hw'.count
+    rw [e_ct, e_minor] at this
+    simp only [maxPointCount] at this
+    have h3 : h.vMinor ≤ 3 := by omega
+    simp only [h3, if_true] at this
+    omega
+
+
+/-- **a file that ends before its first point record** (an interrupted initial header / VLR write, or a
+    truncation inside the header): reading fails or returns no point at all -/
+theorem C19_short_file (img : Bytes) (h : img.length ≤ fileOffset img) :
+    (∃ e, readFile img = .error e) ∨ (∃ r, readFile img = .ok r ∧ r.records = []) := by
+  unfold readFile
+  cases hd : decodeHdr img with
+  | error e => exact Or.inl ⟨_, rfl⟩
+  | ok hdr =>
+    simp only
+    unfold readBody
+    split
+    · exact Or.inl ⟨_, rfl⟩
+    · split
+      · exact Or.inl ⟨_, rfl⟩
+      · have hdrop : img.drop (fileOffset img) = [] := List.drop_of_length_le h
+        unfold readRecords
+        simp only [hdrop, List.take_nil, List.length_nil, Nat.zero_mod, ne_eq, not_true_eq_false, and_false, if_false,
+          Nat.zero_div]
+        right
+        refine ⟨_, rfl, ?_⟩
+        simp only
+        split <;> simp [splitRecs]
+
+
+theorem image_zero (s : Bytes) (l : List Write) : image s l 0 = s := by
+  cases l with
+  | nil => rfl
+  | cons w ws => obtain ⟨p, d⟩ := w; simp [image]
+
+/-- the image of a store under sequential appends starting at its end -/
+theorem image_seq (store : Bytes) (cs : List Bytes) (rest : List Write) (k : Nat) :
+    image store (writerLog.go store.length cs ++ rest) k =
+      if k < cs.flatten.length then store ++ cs.flatten.take k
+      else image (store ++ cs.flatten) rest (k - cs.flatten.length) := by
+  induction cs generalizing store k with
+  | nil => simp [writerLog.go]
+  | cons c cs ih =>
+    simp only [writerLog.go, List.cons_append, image, List.flatten_cons, List.length_append]
+    have hw : ∀ d : Bytes, writeAt store store.length d = store ++ d := by
+      intro d
+      have := writeAt_append store [] d
+      simpa using this
+    by_cases hk0 : k = 0
+    · subst hk0
+      simp only [if_true]
+      split
+      · simp
+      · next hz =>
+        rw [Nat.zero_sub, image_zero]
+        have hf : c ++ cs.flatten = [] := List.length_eq_zero_iff.mp (by simp only [List.length_append]; omega)
+        rw [hf]; simp
+    · simp only [hk0, if_false]
+      by_cases hkc : k < c.length
+      · have : k < c.length + cs.flatten.length := by omega
+        simp only [hkc, this, if_true, hw]
+        rw [List.take_append_of_le_length (by omega)]
+      · simp only [hkc, if_false, hw]
+        have hl : (store ++ c).length = store.length + c.length := by simp
+        rw [← hl, ih (store ++ c) (k - c.length)]
+        by_cases hk2 : k - c.length < cs.flatten.length
+        · have : k < c.length + cs.flatten.length := by omega
+          simp only [hk2, this, if_true, List.append_assoc]
+          congr 1
+          rw [List.take_append, List.take_of_length_le (by omega : c.length ≤ k)]
+        · have : ¬ k < c.length + cs.flatten.length := by omega
+          simp only [hk2, this, if_false, List.append_assoc]
+          congr 1
+          omega
+
+
+theorem go_append_single (pos : Nat) (cs : List Bytes) (e : Bytes) :
+    writerLog.go pos (cs ++ [e]) = writerLog.go pos cs ++ [(pos + cs.flatten.length, e)] := by
+  induction cs generalizing pos with
+  | nil => simp [writerLog.go]
+  | cons c cs ih =>
+    simp only [List.cons_append, writerLog.go, ih, List.flatten_cons, List.length_append]
+    rw [Nat.add_assoc]
+
+theorem readFile_tiny (img : Bytes) (h : img.length < 227) : ∃ e, readFile img = .error e := by
+  have hp : ∃ e, prefetch img = .error e := by
+    unfold prefetch
+    simp only
+    split
+    · exact ⟨_, rfl⟩
+    · split
+      · exact ⟨_, rfl⟩
+      · have : (img.take 227).length < 227 := by simp [List.length_take]; omega
+        simp only [this, if_true]
+        exact ⟨_, rfl⟩
+  obtain ⟨e, he⟩ := hp
+  unfold readFile decodeHdr
+  rw [he]
+  exact ⟨_, rfl⟩
+
+theorem withStats_self (h : Hdr) : C07.withStats h h.count h.byReturn h.doubles h.evlrStart h.nEvlrs = h := by
+  cases h; rfl
+
+theorem isPrefix_nil {α} (l : List α) : IsPrefix ([] : List α) l := ⟨l, rfl⟩
+
+/-- **C19, every crash point of a writer session.** The session writes the initial header (count 0)
+    and VLRs, the record chunks, the EVLR bytes, and finally the header again with the final
+    statistics. Whatever number `k` of bytes of that write stream reached the destination, reading
+    it fails or returns a prefix of the records the session was storing. -/
+theorem C19_writer_crash (h0 : Hdr) (hw0 : h0.WF) (hc0 : h0.count = 0) (vb : Bytes)
+    (byReturn doubles : List Nat) (evlrStart nEvlrs : Nat) (recs : List Rec)
+    (hw' : (C07.withStats h0 recs.length byReturn doubles evlrStart nEvlrs).WF)
+    (hoff32 : base h0.vMinor + h0.extraHeader.length + vb.length + h0.extraVlr.length < 2 ^ 32)
+    (chunks : List Bytes) (hch : chunks.flatten = recs.flatten) (eb : Bytes)
+    (hpos : 0 < h0.recLen) (hrec : ∀ r ∈ recs, r.length = h0.recLen) (k : Nat) :
+    let img := image [] (writerLog (encForm h0 vb) chunks eb
+      (encForm (C07.withStats h0 recs.length byReturn doubles evlrStart nEvlrs) vb)) k
+    (∃ e, readFile img = .error e) ∨ (∃ r, readFile img = .ok r ∧ IsPrefix r.records recs) := by
+  intro img
+  have himg : img = image [] (writerLog (encForm h0 vb) chunks eb
+      (encForm (C07.withStats h0 recs.length byReturn doubles evlrStart nEvlrs) vb)) k := rfl
+  clear_value img
+  generalize hF : C07.withStats h0 recs.length byReturn doubles evlrStart nEvlrs = hf at *
+  have l0 := encForm_length h0 hw0 vb
+  have l1 : (encForm hf vb).length = (encForm h0 vb).length := by
+    rw [l0, ← hF]; exact encForm_length _ (hF ▸ hw') vb
+  have hb := base_ge h0.vMinor hw0.minor
+  -- the header-rewrite shape, for any j
+  have shape3 : ∀ j, j ≤ (encForm hf vb).length →
+      (∃ e, readFile ((encForm hf vb).take j ++ (encForm h0 vb).drop j ++ (recs.flatten ++ eb)) = .error e) ∨
+      (∃ r, readFile ((encForm hf vb).take j ++ (encForm h0 vb).drop j ++ (recs.flatten ++ eb)) = .ok r ∧ IsPrefix r.records recs) := by
+    intro j hj
+    subst hF
+    exact C19_rewrite_session h0 hw0 vb recs.length byReturn doubles evlrStart nEvlrs hw' hoff32 recs eb j hj hpos hrec
+      (by omega) (Nat.le_refl _)
+  -- the shape before the rewrite: the initial header followed by anything
+  have shape2 : ∀ t : Bytes,
+      (∃ e, readFile (encForm h0 vb ++ t) = .error e) ∨
+      (∃ r, readFile (encForm h0 vb ++ t) = .ok r ∧ IsPrefix r.records recs) := by
+    intro t
+    have := C19_rewrite_session h0 hw0 vb h0.count h0.byReturn h0.doubles h0.evlrStart h0.nEvlrs
+      (by rw [withStats_self]; exact hw0) hoff32 [] t 0 (Nat.zero_le _) hpos (by intro r hr; cases hr) (Nat.le_refl _)
+      (by rw [hc0]; exact Nat.zero_le _)
+    simp only [List.take_zero, List.drop_zero, List.nil_append, List.flatten_nil] at this
+    rcases this with h | ⟨r, hr, ⟨t', ht'⟩⟩
+    · exact Or.inl h
+    · have : r.records = [] := by
+        cases hrr : r.records with
+        | nil => rfl
+        | cons x xs => rw [hrr] at ht'; cases ht'
+      exact Or.inr ⟨r, hr, by rw [this]; exact isPrefix_nil recs⟩
+  unfold writerLog at himg
+  simp only [List.cons_append, image] at himg
+  by_cases hk0 : k = 0
+  · simp only [hk0, if_true] at himg
+    rw [himg]; exact Or.inl (readFile_tiny [] (by decide))
+  · simp only [hk0, if_false] at himg
+    by_cases hk1 : k < (encForm h0 vb).length
+    · simp only [hk1, if_true] at himg
+      have hwr : writeAt [] 0 ((encForm h0 vb).take k) = (encForm h0 vb).take k := by
+        unfold writeAt; simp
+      rw [hwr] at himg
+      by_cases h227 : k < 227
+      · rw [himg]; exact Or.inl (readFile_tiny _ (by simp [List.length_take]; omega))
+      · have hfo : fileOffset img = (encForm h0 vb).length := by
+          rw [himg]
+          unfold fileOffset
+          have hs : (((encForm h0 vb).take k).drop 96).take 4 = slice 96 4 (encForm h0 vb) := by
+            unfold slice
+            rw [List.drop_take, List.take_take]
+            congr 1; omega
+          rw [hs, (encForm_slices h0 hw0 vb).2.1, leNat_leBytes_of_lt _ _ (by simpa using hoff32), l0]
+        rcases C19_short_file img (by rw [hfo, himg]; simp [List.length_take]; omega) with h | ⟨r, hr, hrr⟩
+        · exact Or.inl h
+        · exact Or.inr ⟨r, hr, by rw [hrr]; exact isPrefix_nil recs⟩
+    · simp only [hk1, if_false] at himg
+      have hwr : writeAt [] 0 (encForm h0 vb) = encForm h0 vb := by unfold writeAt; simp
+      rw [hwr] at himg
+      have hgo : writerLog.go (encForm h0 vb).length chunks ++
+          [((encForm h0 vb).length + chunks.flatten.length, eb), (0, encForm hf vb)] =
+          writerLog.go (encForm h0 vb).length (chunks ++ [eb]) ++ [(0, encForm hf vb)] := by
+        rw [go_append_single]; simp
+      rw [hgo, image_seq] at himg
+      have hbody : (chunks ++ [eb]).flatten = recs.flatten ++ eb := by simp [hch]
+      rw [hbody] at himg
+      by_cases hk2 : k - (encForm h0 vb).length < (recs.flatten ++ eb).length
+      · simp only [hk2, if_true] at himg
+        rw [himg]; exact shape2 _
+      · simp only [hk2, if_false, image] at himg
+        generalize hk3 : k - (encForm h0 vb).length - (recs.flatten ++ eb).length = k3 at himg
+        by_cases hz : k3 = 0
+        · simp only [hz, if_true] at himg
+          rw [himg]; exact shape2 _
+        · simp only [hz, if_false] at himg
+          by_cases hlt : k3 < (encForm hf vb).length
+          · simp only [hlt, if_true] at himg
+            have hw3 : writeAt (encForm h0 vb ++ (recs.flatten ++ eb)) 0 ((encForm hf vb).take k3) =
+                (encForm hf vb).take k3 ++ (encForm h0 vb).drop k3 ++ (recs.flatten ++ eb) := by
+              unfold writeAt
+              simp only [Nat.not_lt_zero, if_false, List.take_zero, List.nil_append, Nat.zero_add, List.length_take]
+              rw [Nat.min_eq_left (by omega), List.drop_append_of_le_length (by omega), List.append_assoc]
+            rw [himg, hw3]; exact shape3 k3 (by omega)
+          · simp only [hlt, if_false] at himg
+            rw [writeAt_zero _ _ _ l1] at himg
+            have := shape3 (encForm hf vb).length (Nat.le_refl _)
+            rw [List.take_length, List.drop_of_length_le (by omega)] at this
+            simp only [List.append_nil] at this
+            rw [himg]; exact this
+
+
+/-- **an intact header over a record area in any state** (every crash point of an append session
+    before its header rewrite; every truncation after the header): the header advertises `h.count`
+    points, the record area starts with at least that many stored records followed by anything —
+    reading fails or returns a prefix of the stored records -/
+theorem C19_intact_header (h : Hdr) (hw : h.WF) (vb : Bytes)
+    (hoff32 : base h.vMinor + h.extraHeader.length + vb.length + h.extraVlr.length < 2 ^ 32)
+    (recs : List Rec) (tail : Bytes) (hpos : 0 < h.recLen) (hrec : ∀ r ∈ recs, r.length = h.recLen)
+    (hn : h.count ≤ recs.length) :
+    (∃ e, readFile (encForm h vb ++ (recs.flatten ++ tail)) = .error e) ∨
+    (∃ r, readFile (encForm h vb ++ (recs.flatten ++ tail)) = .ok r ∧ IsPrefix r.records recs) := by
+  have := C19_rewrite_session h hw vb h.count h.byReturn h.doubles h.evlrStart h.nEvlrs
+    (by rw [withStats_self]; exact hw) hoff32 recs tail 0 (Nat.zero_le _) hpos hrec (Nat.le_refl _) hn
+  simpa using this
+
+
+theorem ago_eq (pos : Nat) (cs : List Bytes) : appenderLog.go pos cs = writerLog.go pos cs := by
+  induction cs generalizing pos with
+  | nil => rfl
+  | cons c cs ih => simp [appenderLog.go, writerLog.go, ih]
+
+/-- the image of a store under sequential writes that start inside it (overwriting its tail `T`) -/
+theorem image_over (P T : Bytes) (cs : List Bytes) (rest : List Write) (k : Nat) :
+    image (P ++ T) (writerLog.go P.length cs ++ rest) k =
+      if k < cs.flatten.length then P ++ cs.flatten.take k ++ T.drop k
+      else image (P ++ cs.flatten ++ T.drop cs.flatten.length) rest (k - cs.flatten.length) := by
+  induction cs generalizing P T k with
+  | nil => simp [writerLog.go]
+  | cons c cs ih =>
+    simp only [writerLog.go, List.cons_append, image, List.flatten_cons, List.length_append]
+    by_cases hk0 : k = 0
+    · subst hk0
+      simp only [if_true]
+      split
+      · simp
+      · next hz =>
+        rw [Nat.zero_sub, image_zero]
+        have hlen : c.length + cs.flatten.length = 0 := by omega
+        have hf : c ++ cs.flatten = [] := List.length_eq_zero_iff.mp (by simp only [List.length_append]; omega)
+        rw [hf, hlen]; simp
+    · simp only [hk0, if_false]
+      by_cases hkc : k < c.length
+      · have : k < c.length + cs.flatten.length := by omega
+        simp only [hkc, this, if_true]
+        rw [writeAt_append, List.take_append_of_le_length (by omega)]
+        simp [List.length_take, Nat.min_eq_left (Nat.le_of_lt hkc)]
+      · simp only [hkc, if_false]
+        rw [writeAt_append]
+        have hl : (P ++ c).length = P.length + c.length := by simp
+        rw [← hl, ih (P ++ c) (T.drop c.length) (k - c.length)]
+        have e1 : (c ++ cs.flatten).take k = c ++ cs.flatten.take (k - c.length) := by
+          rw [List.take_append, List.take_of_length_le (by omega)]
+        have e2 : (T.drop c.length).drop (k - c.length) = T.drop k := by
+          rw [List.drop_drop]; congr 1; omega
+        have e3 : (T.drop c.length).drop cs.flatten.length = T.drop (c.length + cs.flatten.length) := by
+          rw [List.drop_drop]
+        have e4 : k - c.length - cs.flatten.length = k - (c.length + cs.flatten.length) := by omega
+        by_cases hk2 : k - c.length < cs.flatten.length
+        · have : k < c.length + cs.flatten.length := by omega
+          simp only [hk2, this, if_true, e1, e2, List.append_assoc]
+        · have : ¬ k < c.length + cs.flatten.length := by omega
+          simp only [hk2, this, if_false, e3, e4, List.append_assoc]
+
+
+theorem isPrefix_append_right {α} {a b : List α} (c : List α) (h : IsPrefix a b) : IsPrefix a (b ++ c) := by
+  obtain ⟨t, ht⟩ := h
+  exact ⟨t ++ c, by rw [← List.append_assoc, ht]⟩
+
+/-- **C19, every crash point of an append session.** The file holds a header `h` advertising the
+    records `oldRecs`, followed by anything (`T`: its EVLRs). The session writes the new chunks over
+    what follows the old records, then the EVLR bytes, then rewrites the header in place with the new
+    statistics. Whatever number `k` of bytes of that write stream reached the file, reading it fails or
+    returns a prefix of `oldRecs ++ newRecs`. -/
+theorem C19_appender_crash (h : Hdr) (hw : h.WF) (vb : Bytes) (oldRecs newRecs : List Rec) (T : Bytes)
+    (hcount : h.count = oldRecs.length)
+    (byReturn doubles : List Nat) (evlrStart nEvlrs : Nat)
+    (hw' : (C07.withStats h (oldRecs ++ newRecs).length byReturn doubles evlrStart nEvlrs).WF)
+    (hoff32 : base h.vMinor + h.extraHeader.length + vb.length + h.extraVlr.length < 2 ^ 32)
+    (chunks : List Bytes) (hch : chunks.flatten = newRecs.flatten) (eb : Bytes)
+    (hpos : 0 < h.recLen) (hrec : ∀ r ∈ oldRecs ++ newRecs, r.length = h.recLen) (k : Nat) :
+    let file := encForm h vb ++ oldRecs.flatten ++ T
+    let img := image file (appenderLog (encForm h vb ++ oldRecs.flatten).length chunks eb
+      (encForm (C07.withStats h (oldRecs ++ newRecs).length byReturn doubles evlrStart nEvlrs) vb)) k
+    (∃ e, readFile img = .error e) ∨ (∃ r, readFile img = .ok r ∧ IsPrefix r.records (oldRecs ++ newRecs)) := by
+  intro file img
+  have himg : img = image (encForm h vb ++ oldRecs.flatten ++ T) (appenderLog (encForm h vb ++ oldRecs.flatten).length chunks eb
+      (encForm (C07.withStats h (oldRecs ++ newRecs).length byReturn doubles evlrStart nEvlrs) vb)) k := rfl
+  clear_value img file
+  have l0 := encForm_length h hw vb
+  have l1 : (encForm (C07.withStats h (oldRecs ++ newRecs).length byReturn doubles evlrStart nEvlrs) vb).length = (encForm h vb).length := by
+    rw [l0]; exact encForm_length _ hw' vb
+  have hrecOld : ∀ r ∈ oldRecs, r.length = h.recLen := fun r hr => hrec r (List.mem_append_left _ hr)
+  -- header untouched, the old records followed by anything
+  have shapeA : ∀ t : Bytes,
+      (∃ e, readFile (encForm h vb ++ (oldRecs.flatten ++ t)) = .error e) ∨
+      (∃ r, readFile (encForm h vb ++ (oldRecs.flatten ++ t)) = .ok r ∧ IsPrefix r.records (oldRecs ++ newRecs)) := by
+    intro t
+    rcases C19_intact_header h hw vb hoff32 oldRecs t hpos hrecOld (by omega) with hh | ⟨r, hr, hp⟩
+    · exact Or.inl hh
+    · exact Or.inr ⟨r, hr, isPrefix_append_right newRecs hp⟩
+  -- the header rewrite over the complete record area
+  have shapeB : ∀ j, j ≤ (encForm (C07.withStats h (oldRecs ++ newRecs).length byReturn doubles evlrStart nEvlrs) vb).length → ∀ t : Bytes,
+      (∃ e, readFile ((encForm (C07.withStats h (oldRecs ++ newRecs).length byReturn doubles evlrStart nEvlrs) vb).take j ++
+        (encForm h vb).drop j ++ ((oldRecs ++ newRecs).flatten ++ t)) = .error e) ∨
+      (∃ r, readFile ((encForm (C07.withStats h (oldRecs ++ newRecs).length byReturn doubles evlrStart nEvlrs) vb).take j ++
+        (encForm h vb).drop j ++ ((oldRecs ++ newRecs).flatten ++ t)) = .ok r ∧ IsPrefix r.records (oldRecs ++ newRecs)) := by
+    intro j hj t
+    exact C19_rewrite_session h hw vb _ byReturn doubles evlrStart nEvlrs hw' hoff32 (oldRecs ++ newRecs) t j hj hpos hrec
+      (by rw [hcount]; simp) (Nat.le_refl _)
+  generalize hF : encForm (C07.withStats h (oldRecs ++ newRecs).length byReturn doubles evlrStart nEvlrs) vb = encF at *
+  unfold appenderLog at himg
+  rw [ago_eq] at himg
+  have hgo : writerLog.go (encForm h vb ++ oldRecs.flatten).length chunks ++
+      [((encForm h vb ++ oldRecs.flatten).length + chunks.flatten.length, eb), (0, encF)] =
+      writerLog.go (encForm h vb ++ oldRecs.flatten).length (chunks ++ [eb]) ++ [(0, encF)] := by
+    rw [go_append_single]; simp
+  rw [hgo, image_over] at himg
+  have hbody : (chunks ++ [eb]).flatten = newRecs.flatten ++ eb := by simp [hch]
+  rw [hbody] at himg
+  by_cases hk2 : k < (newRecs.flatten ++ eb).length
+  · simp only [hk2, if_true] at himg
+    rw [himg, List.append_assoc, List.append_assoc]; exact shapeA _
+  · simp only [hk2, if_false, image] at himg
+    have hstore : encForm h vb ++ oldRecs.flatten ++ (newRecs.flatten ++ eb) ++ T.drop (newRecs.flatten ++ eb).length =
+        encForm h vb ++ ((oldRecs ++ newRecs).flatten ++ (eb ++ T.drop (newRecs.flatten ++ eb).length)) := by
+      simp [List.append_assoc]
+    rw [hstore] at himg
+    generalize hk3 : k - (newRecs.flatten ++ eb).length = k3 at himg
+    by_cases hz : k3 = 0
+    · simp only [hz, if_true] at himg
+      have := shapeB 0 (Nat.zero_le _) (eb ++ T.drop (newRecs.flatten ++ eb).length)
+      simp only [List.take_zero, List.drop_zero, List.nil_append] at this
+      rw [himg]; exact this
+    · simp only [hz, if_false] at himg
+      by_cases hlt : k3 < encF.length
+      · simp only [hlt, if_true] at himg
+        have hw3 : ∀ body : Bytes, writeAt (encForm h vb ++ body) 0 (encF.take k3) =
+            encF.take k3 ++ (encForm h vb).drop k3 ++ body := by
+          intro body
+          unfold writeAt
+          simp only [Nat.not_lt_zero, if_false, List.take_zero, List.nil_append, Nat.zero_add, List.length_take]
+          rw [Nat.min_eq_left (by omega), List.drop_append_of_le_length (by omega), List.append_assoc]
+        rw [himg, hw3]; exact shapeB k3 (by omega) _
+      · simp only [hlt, if_false] at himg
+        rw [writeAt_zero _ _ _ l1] at himg
+        have := shapeB encF.length (Nat.le_refl _) (eb ++ T.drop (newRecs.flatten ++ eb).length)
+        rw [List.take_length, List.drop_of_length_le (by omega)] at this
+        simp only [List.append_nil] at this
+        rw [himg]; exact this
+
+
+/-- **C19, truncated files.** A complete file (header advertising at most the records stored, the
+    records, anything after them) cut at any length `L`: reading fails or returns a prefix of the
+    stored records. -/
+theorem C19_truncated (h : Hdr) (hw : h.WF) (vb : Bytes)
+    (hoff32 : base h.vMinor + h.extraHeader.length + vb.length + h.extraVlr.length < 2 ^ 32)
+    (recs : List Rec) (tail : Bytes) (hpos : 0 < h.recLen) (hrec : ∀ r ∈ recs, r.length = h.recLen)
+    (hn : h.count ≤ recs.length) (L : Nat) :
+    (∃ e, readFile ((encForm h vb ++ (recs.flatten ++ tail)).take L) = .error e) ∨
+    (∃ r, readFile ((encForm h vb ++ (recs.flatten ++ tail)).take L) = .ok r ∧ IsPrefix r.records recs) := by
+  have l0 := encForm_length h hw vb
+  have hb := base_ge h.vMinor hw.minor
+  obtain ⟨a1, a2, a3, a4, a5⟩ := encForm_slices h hw vb
+  by_cases h227 : L < 227
+  · exact Or.inl (readFile_tiny _ (by simp [List.length_take]; omega))
+  · by_cases hL : L ≤ (encForm h vb).length
+    · -- cut inside the header / VLR block: no record at all
+      have himg : (encForm h vb ++ (recs.flatten ++ tail)).take L = (encForm h vb).take L :=
+        List.take_append_of_le_length hL
+      rw [himg]
+      have hfo : fileOffset ((encForm h vb).take L) = (encForm h vb).length := by
+        unfold fileOffset
+        have hs : (((encForm h vb).take L).drop 96).take 4 = slice 96 4 (encForm h vb) := by
+          unfold slice
+          rw [List.drop_take, List.take_take]
+          congr 1; omega
+        rw [hs, a2, leNat_leBytes_of_lt _ _ (by simpa using hoff32), l0]
+      rcases C19_short_file ((encForm h vb).take L) (by rw [hfo]; simp [List.length_take]; omega) with hh | ⟨r, hr, hrr⟩
+      · exact Or.inl hh
+      · exact Or.inr ⟨r, hr, by rw [hrr]; exact isPrefix_nil recs⟩
+    · -- cut inside the record area (or later): intact header over the bytes present
+      have himg : (encForm h vb ++ (recs.flatten ++ tail)).take L =
+          encForm h vb ++ (recs.flatten ++ tail).take (L - (encForm h vb).length) := by
+        rw [List.take_append, List.take_of_length_le (by omega)]
+      rw [himg]
+      have hmin : leNat (slice 25 1 (encForm h vb)) = h.vMinor := by
+        rw [a1, leNat_leBytes_of_lt]; have := hw.minor.2; omega
+      have := C19_header_rewrite (encForm h vb) (encForm h vb) ((recs.flatten ++ tail).take (L - (encForm h vb).length)) recs tail 0
+        (base h.vMinor + h.extraHeader.length + vb.length + h.extraVlr.length) h.recLen h.count h.count
+        rfl l0 (by omega) (Nat.zero_le _) (L - (encForm h vb).length) rfl hpos hrec rfl rfl
+        (by rw [a2, leNat_leBytes_of_lt _ _ (by simpa using hoff32)]) rfl
+        (by rw [a3, leNat_leBytes_of_lt _ _ (by have := hw.recLen; simpa using this)]) (Nat.le_refl _) hn
+        (by
+          rw [hmin]
+          have hc := hw.count
+          simp only [maxPointCount] at hc
+          by_cases h4 : h.vMinor ≥ 4
+          · simp only [h4, if_true]
+            have h3 : ¬ h.vMinor ≤ 3 := by omega
+            simp only [h3, if_false] at hc
+            exact ⟨a5 h4, a5 h4, by omega⟩
+          · simp only [h4, if_false]
+            simp only [h4, if_false] at a4
+            have h3 : h.vMinor ≤ 3 := by omega
+            simp only [h3, if_true] at hc
+            exact ⟨a4, a4, by omega⟩)
+      simpa using this
+
 
 end LasModel.Props.C19
